@@ -276,7 +276,8 @@ LATER = {
     "C04": " The asker of an introspection request only gates whether an answer is given (may_ask); every statement of the answer is the "
            "minting session's for every admitted asker (C04_introspection_asker_independent, C04_introspection_answer_is_owners); "
            "third parties with enforce_audience_restriction off, audience members, client-dependent user data."
-           " Handler keys given or library-generated across independently built provider instances (C04_independent_instances_refuse, C04_reencrypted_under_other_instance_refused, C04_other_instance_cannot_forge, C04_history_instances_independent; freshness of generated keys is an explicit hypothesis).",
+           " Handler keys given or library-generated across independently built provider instances (C04_independent_instances_refuse, C04_reencrypted_under_other_instance_refused, C04_other_instance_cannot_forge, C04_history_instances_independent; freshness of generated keys is an explicit hypothesis)."
+           " Claims inside JWT-formatted access / refresh tokens are those of the session the provider resolves the string to, over every minting path including exchanges asked for by another client and chains (Model/TokenClaims.v: C04_accepted_jwt_claims_are_of_the_resolved_session, C04_exchange_session_party, C04_claims_from_carried_request_misname); lv_unpack is tied by translation (C04_lv_unpack_is_source).",
     "C05": " Tokens minted by the authorization endpoint itself (AuthorizeRT: response types with token / id_token) carry the grant's "
            "filtered scope (C05_front_channel_bounded), resource indicators never add scopes to a token "
            "(C05_resource_scopes_never_reach_tokens); two recorded findings about scope STATEMENTS of the resource-indicator feature "
